@@ -101,7 +101,7 @@ type ownCase struct {
 	PinB      bool      // pod 2 carries the label of revision slot 1
 	PinTerm   bool      // ... and is terminating
 	AllAtB    bool      // every pod carries the label of revision slot 1 (none is at the set's template)
-	API       string    // "same", "api-deleting", "cache-deleting", "other-uid", "absent"
+	API       string    // "same", "api-deleting", "cache-deleting", "other-uid", "absent", "api-paused"
 	Paused    bool
 }
 
@@ -281,6 +281,15 @@ func (c ownCase) Build(w *world.World) *world.State {
 		a.Finalizers = []string{"example.com/hold"}
 		st.API.Sets["web"] = a
 		st.Cache.Sets["web"] = a
+	case "api-paused":
+		// the user has just paused the set; the cache has not caught up
+		a := set.DeepCopy()
+		if a.Annotations == nil {
+			a.Annotations = map[string]string{}
+		}
+		a.Annotations["paused-reconcile"] = "true"
+		a.ResourceVersion = "2"
+		st.API.Sets["web"] = a
 	case "other-uid":
 		a := set.DeepCopy()
 		a.UID = "uid-web-recreated"
@@ -590,10 +599,10 @@ func init() {
 		ownGrid([]string{"cache-deleting", "api-deleting"}, []string{"Parallel", "OrderedReady"}, false, depth, thorough, emitOwn)
 		if ok {
 			// several orphans waiting at once (the confirmation must hold for every one of them, not only the first)
-			for _, api := range []string{"api-deleting", "cache-deleting", "other-uid", "absent"} {
+			for _, api := range []string{"api-deleting", "cache-deleting", "other-uid", "absent", "api-paused"} {
 				for _, pol := range []string{"Parallel", "OrderedReady"} {
 					for mask := 0; mask < 8; mask++ {
-						if mask&(mask-1) == 0 {
+						if mask&(mask-1) == 0 && !(api == "api-paused" && mask != 0) {
 							continue // fewer than two orphans: covered by the grid above
 						}
 						for _, term := range []bool{false, true} {
